@@ -140,6 +140,68 @@ def _work(task):
     return res
 
 
+MEM_LIMIT_MB = int(os.environ.get("PYVC_WORKER_MEM_MB", "3500"))  # 16 workers stay well inside the machine
+
+
+def _limit_memory():
+    """in a worker: a query that explodes gives `unknown` (MemoryError / z3 memory limit), it does not take the machine down"""
+    import resource
+
+    try:
+        resource.setrlimit(resource.RLIMIT_AS, (MEM_LIMIT_MB * 2 * 1024 * 1024, MEM_LIMIT_MB * 2 * 1024 * 1024))
+    except Exception:
+        pass
+    try:
+        z3.set_param("memory_max_size", MEM_LIMIT_MB)
+    except Exception:
+        pass
+
+
+def robust_map(fn, items, procs, on_crash, limit_memory=True):
+    """pool.map that survives a dying worker: the items that were in flight are re-run one by one in a fresh process;
+    an item whose process dies again gets on_crash(item).  Never hangs on a lost task."""
+    from concurrent.futures import ProcessPoolExecutor
+    from concurrent.futures.process import BrokenProcessPool
+
+    ctx = mp.get_context("fork")
+    init = _limit_memory if limit_memory else None
+    results = [None] * len(items)
+    done = [False] * len(items)
+    try:
+        with ProcessPoolExecutor(max_workers=procs, mp_context=ctx, initializer=init) as ex:
+            futs = {i: ex.submit(fn, it) for i, it in enumerate(items)}
+            for i, f in futs.items():
+                try:
+                    results[i] = f.result()
+                    done[i] = True
+                except BrokenProcessPool:
+                    break
+    except BrokenProcessPool:
+        pass
+    todo = [i for i in range(len(items)) if not done[i]]
+    if not todo:
+        return results
+    # salvage: which of the remaining futures completed before the pool broke is unknown -> run each in isolation
+    width = max(1, min(procs, 4))
+    for start in range(0, len(todo), width):
+        batch = todo[start : start + width]
+        execs = []
+        for i in batch:
+            ex = ProcessPoolExecutor(max_workers=1, mp_context=ctx, initializer=init)
+            execs.append((i, ex, ex.submit(fn, items[i])))
+        for i, ex, f in execs:
+            try:
+                results[i] = f.result()
+            except BrokenProcessPool:
+                results[i] = on_crash(items[i])
+            ex.shutdown(wait=True)
+    return results
+
+
+def _crashed(task):
+    return {"name": task[0], "backends": [{"solver": "z3", "status": "unknown", "time_s": 0.0, "why": "solver process died (memory limit?)"}], "status": "undecided", "by": "-", "model": None}
+
+
 def run_tasks(tasks, procs=None):
     """tasks: list of (name, smt2 text, z3_ms, cvc5_ms, both) -> list of result dicts"""
     if not tasks:
@@ -147,8 +209,7 @@ def run_tasks(tasks, procs=None):
     procs = procs or min(16, len(tasks))
     if procs == 1:
         return [_work(t) for t in tasks]
-    with mp.get_context("fork").Pool(procs) as pool:
-        return pool.map(_work, tasks, chunksize=1)
+    return robust_map(_work, tasks, procs, _crashed)
 
 
 def check_text(name, text, z3_ms=10000, cvc5_ms=20000, both=False):
